@@ -59,7 +59,11 @@ INV = {
                 'for that same module, and it is filed under that module\'s name',
     'failed-pairing': 'at return: the module is in the FAILED map <=> its status is failed or missing; a failed '
                       'status carries the error',
-    'drained': 'at return no module is left in a work map, except built modules reported unprocessed by the abort',
+    'stale-failure': 'when the pass over the sources ends with a source that delivers the name, an error an earlier '
+                     'source raised for that name no longer counts: the name has left the FAILED map by the time '
+                     'compile() returns (unless something failed for it afterwards)',
+    'failure-forgotten': 'a module leaves the FAILED map only right after its name was fetched and analysed '
+                         'successfully, or a borrower supplied it - never because it is skipped or excluded',
     'own-key': 'values of one module (MibInfo, syntax tree, symbol table, generated text, status attributes) are '
                'filed under that module\'s own name, never under another module\'s',
     'abort': 'the first hand-over to the writer happens only when the FAILED map is empty or ignoreErrors is set; '
@@ -69,8 +73,8 @@ INV = {
     'closure': 'the imports of every module the symbol-table pass produced are queued on the work list',
     'fresh': 'a module some searcher reported as up to date is not code-generated afterwards and ends untouched; '
              'untouched is only ever reported for that reason or for the noDeps exclusion',
-    'nodeps': 'under noDeps only modules produced by fetching a requested name are code-generated, and only other '
-              'modules are excluded',
+    'nodeps': 'under noDeps only modules that were requested, or produced by fetching a requested name, are '
+              'code-generated, and only other modules are excluded',
     'borrow-failed-only': 'a borrower is asked only for a module that is in the FAILED map at that time, and a '
                           'module with generated code is never replaced by a borrowed copy',
     'borrow-eligible': 'a failed module that was explicitly requested is offered to the borrowers also under noDeps',
@@ -273,6 +277,8 @@ class Interp(object):
             st.pop('f:srcdone', None)
             st.pop('f:res', None)
             st.pop('f:queued', None)
+            st.pop('f:imports-phase', None)
+            st.pop('f:popped', None)
         if '@try' not in encl:
             st.pop('f:infetch', None)
         for name, live in self.cont_live.items():
@@ -308,6 +314,23 @@ class Interp(object):
             if isinstance(n, ast.Call) and isinstance(n.func, ast.Name) and n.func.id in ('len', 'bool') and n.args \
                     and isinstance(n.args[0], ast.Name) and n.args[0].id in self.cont:
                 self.tested.add(n.args[0].id)
+        # FIFO work lists: initialised from the requested names, only ever popped with pop(0) and grown with
+        # extend / append
+        self.fifo = {}
+        for name, kind in self.cont.items():
+            if kind != 'list':
+                continue
+            inits = [n for n in walk_no_nested(self.fn) if isinstance(n, ast.Assign) and len(n.targets) == 1 and
+                     isinstance(n.targets[0], ast.Name) and n.targets[0].id == name]
+            ok = bool(inits) and all((self._container_literal(n.value) or (None, False))[1] for n in inits)
+            for n in walk_no_nested(self.fn):
+                if isinstance(n, ast.Call) and isinstance(n.func, ast.Attribute) and isinstance(n.func.value, ast.Name) \
+                        and n.func.value.id == name:
+                    if n.func.attr == 'pop':
+                        ok = ok and len(n.args) == 1 and isinstance(n.args[0], ast.Constant) and n.args[0].value == 0
+                    elif n.func.attr not in ('extend', 'append'):
+                        ok = False
+            self.fifo[name] = ok
         # aliasing of containers is not modelled
         for n in walk_no_nested(self.fn):
             if isinstance(n, ast.Assign) and isinstance(n.value, ast.Name) and n.value.id in self.cont:
@@ -513,7 +536,7 @@ class Interp(object):
                 elif label == 'brk':
                     loop = cr.enclosing_loop(node.ast, self.fn)
                     if loop is not None:
-                        self.leave_loop(loop, st2)
+                        self.leave_loop(loop, st2, via_break=True)
                     m = self.edge(node, 'brk')
                     if m is not None:
                         out.append((m, st2, note))
@@ -580,9 +603,14 @@ class Interp(object):
         raise AnalysisError('unhandled CFG node kind %s' % k)
 
     # -- loops ---------------------------------------------------------------------------------------------------
-    def leave_loop(self, loop, st):
+    def leave_loop(self, loop, st, via_break=False):
         key = 'loop:%d' % self.loop_id(loop)
         d = st.pop(key, None)
+        if via_break and d and d[0] == 'comp' and self.attr_role.get(d[1]) == 'source' and \
+                st.get('env:@popped') == A:
+            # the pass over the sources for this name ended with a source that delivered
+            st['f:fetchok'] = True
+            st.pop('f:failedlater', None)
         if d and d[0] == 'comp' and self.attr_role.get(d[1]) == 'source' and st.pop('f:srcasking', None):
             st['f:srcdone'] = True
 
@@ -621,6 +649,7 @@ class Interp(object):
             if d[0] == 'keys':
                 if d[2]:
                     s = dict(st1)
+                    s.pop('f:cure', None)
                     s[key] = ('keys', d[1], False)
                     if d[1] == self.failed and self.has_borrower_loop(loop):
                         s['f:borskip'] = True
@@ -635,6 +664,7 @@ class Interp(object):
                     out.append((fnode, s, None))
                 for req in (False, True):
                     s = dict(st1)
+                    s.pop('f:cure', None)
                     self.bind(loop.target, ('k', 'O', req), s)
                     out.append((tnode, s, 'next key of %s: another module' % d[1]))
             elif d[0] == 'seq':
@@ -884,12 +914,19 @@ class Interp(object):
         return [(True, a), (False, b)]
 
     def opt_truth(self, name, st, default):
+        """truth of options.get(name[, default]): the caller passed a true value, a false value, or nothing ('A':
+        the default decides)"""
         key = 'opt:' + name
         if key in st:
+            if st[key] == 'A':
+                return self.truth(default, st)
             return [(st[key], st)]
-        a, b = dict(st), dict(st)
-        a[key], b[key] = True, False
-        return [(True, a), (False, b)]
+        out = []
+        for v in (True, False, 'A'):
+            s2 = dict(st)
+            s2[key] = v
+            out += self.opt_truth(name, s2, default)
+        return out
 
     def cond(self, e, st):
         """-> [('v', bool, state) | ('x', cls, state)]"""
@@ -1092,6 +1129,12 @@ class Interp(object):
             out.append(('v', UNK, s))
         return out
 
+    def forgetting(self, name, st):
+        if name == self.failed:
+            self.rep.check('failure-forgotten', 'remove@FAILED', bool(st.get('f:cure')),
+                           'a recorded failure is dropped although the module has not just been read, analysed or '
+                           'borrowed successfully', self.path, st)
+
     def container_method(self, e, name, meth, pos, kw, st):
         kind = self.cont[name]
         ikey, okey = 'in:' + name, 'oth:' + name
@@ -1137,6 +1180,9 @@ class Interp(object):
             return [('v', NONE, st), ('v', NONE, s2)]
         if meth == 'pop':
             if kind == 'list':
+                # A list initialised from the requested names, popped at the front and grown at the end is a FIFO:
+                # every requested name is taken before any name that only an import brought in.
+                fifo = self.fifo.get(name, False)
                 outs = []
                 if ikey in st:
                     for still in (False, True):
@@ -1145,13 +1191,24 @@ class Interp(object):
                             s2.pop(ikey)
                         if not s2.get('f:res'):
                             s2['f:unres'] = True
+                        if fifo and not st['req']:
+                            s2['f:imports-phase'] = True
+                        s2['f:popped'] = True
+                        s2.pop('f:cure', None)
                         s2['env:@popped'] = A
                         s2['~n'] = 'name taken from the work list: A'
                         outs.append(('v', A, s2))
                 if st.get(okey) is not False:
                     for req in (False, True):
+                        if fifo and req and st.get('f:imports-phase'):
+                            continue      # requested names come first
+                        if fifo and not req and st['req'] and not st.get('f:popped'):
+                            continue      # A is requested and still waiting at the front
                         s2 = dict(st)
                         s2.pop(okey, None)
+                        s2.pop('f:cure', None)
+                        if fifo and not req:
+                            s2['f:imports-phase'] = True
                         s2['env:@popped'] = ('k', 'O', req)
                         s2['~n'] = 'name taken from the work list: another %s name' % (
                             'requested' if req else 'imported')
@@ -1161,6 +1218,7 @@ class Interp(object):
                 return outs
             if k == A:
                 if ikey in st:
+                    self.forgetting(name, st)
                     v = st.pop(ikey)
                     return [('v', v, st)]
                 if len(pos) > 1:
@@ -1238,6 +1296,8 @@ class Interp(object):
                 if isinstance(arg, ast.Name) and s.get('env:' + arg.id, UNK)[0] == 'tree':
                     s['env:' + arg.id] = ('tree', kk)
                 s['~n'] = 'symbol-table pass yields module %s' % ('A' if kk == A else 'of another name')
+                if kk == A or s.get('env:@popped') == A:
+                    s['f:cure'] = True      # the name / module at hand has just been read and analysed successfully
                 if kk == A:
                     s['f:infetch'] = True
                 outs.append(('v', ('tup', ('info', kk), ('symtab', kk)), s))
@@ -1250,9 +1310,10 @@ class Interp(object):
             if kk == A:
                 self.rep.check('fresh', site, not st.get('f:fresh'),
                                'code is generated for a module after a searcher reported it up to date', self.path, st)
-                self.rep.check('nodeps', site, not (st.get('opt:noDeps') is not False and not st.get('f:preq')),
-                               'under noDeps code is generated for a module that was not produced by fetching a '
-                               'requested name', self.path, st)
+                self.rep.check('nodeps', site, not (st.get('opt:noDeps') in (True, None) and not st.get('f:preq') and
+                                                    not st['req']),
+                               'under noDeps code is generated for a module that was neither requested nor produced '
+                               'by fetching a requested name', self.path, st)
             outs += fail(st)
             s = dict(st)
             outs.append(('v', ('tup', ('info', kk), ('data', 'gen', kk)), s))
@@ -1270,12 +1331,14 @@ class Interp(object):
                                'a borrower is asked for a module that is not in the FAILED map', self.path, st)
             outs += fail(st)
             s = dict(st)
+            if isA:
+                s['f:cure'] = True          # a borrower has just supplied this module
             outs.append(('v', ('tup', ('finfo', 'bor'), ('data', 'bor', tagk(k) or UNK)), s))
             return outs
         if role == 'writer':
             data = pos[1] if len(pos) > 1 else kw.get('data', UNK)
-            self.rep.check('nowrite-switch', site, st.get('opt:writeMibs') is True,
-                           'the writer is called although writeMibs is switched off', self.path, st)
+            self.rep.check('nowrite-switch', site, st.get('opt:writeMibs') in (True, 'A'),
+                           'the writer is called although writeMibs is switched off (or was never consulted)', self.path, st)
             if not st.get('f:anyput'):
                 failed_nonempty = ('in:' + self.failed) in st or st.get('oth:' + self.failed)
                 if ('oth:' + self.failed) not in st and ('in:' + self.failed) not in st and self.failed in self.tested:
@@ -1360,7 +1423,7 @@ class Interp(object):
         """container[key] = val"""
         k = self.key_of(keyv)
         ln = getattr(node, 'lineno', '?')
-        site = 'store@%s' % name
+        site = 'store@%s' % self.value_kind(val)   # named by what is stored, not by the local variable's name
         if k is None:
             if keyv[0] == 'oth':
                 k = ('k', 'O')
@@ -1382,6 +1445,8 @@ class Interp(object):
             self.rep.check('borrow-status', site, have,
                            'a module is given the status borrowed although no borrowed text of it is at hand',
                            self.path, st)
+        if k == A and name == self.failed and st.get('f:fetchok'):
+            st['f:failedlater'] = True
         if k == A:
             old = st.get('in:' + name)
             if val[0] == 'tup' and any(isinstance(c, tuple) and c[0] == 'data' and c[1] == 'bor' for c in val[1:]) \
@@ -1397,6 +1462,24 @@ class Interp(object):
                     st['f:unq'] = True
         else:
             self.note_store(name, k, st)
+
+    def value_kind(self, v):
+        if v[0] == 'status':
+            return 'status'
+        if v[0] == 'exc':
+            return 'error'
+        if v[0] == 'symtab':
+            return 'symbol-table'
+        if v[0] == 'tup':
+            kinds = [c[0] for c in v[1:] if isinstance(c, tuple)]
+            if 'data' in kinds:
+                return 'module-text-record'
+            if 'tree' in kinds:
+                return 'parsed-record'
+            return 'tuple'
+        if v[0] == 'member':
+            return 'name'
+        return v[0]
 
     def exec_stmt(self, n, st):
         """-> [(label, state, note)]"""
@@ -1474,6 +1557,7 @@ class Interp(object):
                                 k = self.key_of(kv)
                                 if k == A:
                                     if ('in:' + base[1]) in s2:
+                                        self.forgetting(base[1], s2)
                                         s2.pop('in:' + base[1])
                                         nxt.append(('n', s2, None))
                                     else:
@@ -1652,18 +1736,12 @@ class Interp(object):
                        'a module in the FAILED map is reported %s' % word, P, st)
         self.rep.check('failed-pairing', site + '/status', word not in ('failed', 'missing') or in_failed,
                        'a module reported %s is not in the FAILED map' % word, P, st)
+        self.rep.check('stale-failure', site, not (in_failed and st.get('f:fetchok') and not st.get('f:failedlater')),
+                       'a name that a source delivered in the end is still in the FAILED map because of an earlier '
+                       'source\'s error', P, st)
         if word == 'failed':
             self.rep.check('failed-pairing', site + '/error', bool(status[2]),
                            'a failed status does not carry the error', P, st)
-        # work maps drained
-        for name in self.r.work:
-            present = ('in:' + name) in st
-            v = st.get('in:' + name)
-            is_built = present and v[0] == 'tup' and any(isinstance(c, tuple) and c[0] == 'data' for c in v[1:])
-            if present and is_built and word == 'unprocessed':
-                continue
-            self.rep.check('drained', site + '/' + name, not present,
-                           'a module is still in the work map %s at return (status %s)' % (name, word), P, st)
         # abort
         built_left = any(('in:' + w) in st for w in self.r.work)
         if word == 'unprocessed':
@@ -1687,12 +1765,13 @@ class Interp(object):
                            'a module reported up to date by a searcher ends %s' % word, P, st)
         if word == 'untouched':
             self.rep.check('fresh', site + '/reason', bool(st.get('f:fresh')) or
-                           (nodeps and not st.get('f:preq')),
+                           (nodeps and not st.get('f:preq') and not st['req']),
                            'a module is reported untouched although no searcher reported it up to date and it is '
                            'not excluded by noDeps', P, st)
         if nodeps and word == 'untouched' and not st.get('f:fresh'):
-            self.rep.check('nodeps', site + '/excluded', not st.get('f:preq'),
-                           'under noDeps a module produced by fetching a requested name is excluded', P, st)
+            self.rep.check('nodeps', site + '/excluded', not st.get('f:preq') and not st['req'],
+                           'under noDeps a module that was requested (or produced by fetching a requested name) is '
+                           'excluded', P, st)
         # borrowing
         if word == 'borrowed':
             self.rep.check('borrow-status', site, not in_failed,
